@@ -101,30 +101,47 @@ def _with_watchdog(seconds: int, fn, *args):
 
 def eval_design(design: dict, pid: str, n_random: int, only_vals: Optional[list] = None, max_patterns: Optional[int] = None) -> dict:
     """run the REAL code on one abstract design; returns lines for the Lean driver, the
-    implementation's observation lines, the verdict of `pid`'s monitor and statistics"""
+    implementation's observation lines, the verdict of `pid`'s monitor and statistics.
+
+    Anything that goes wrong while processing the REAL objects of the design (an exception, or an
+    extraction that disagrees with the abstract design: missing/extra call sites or bodies, colliding
+    TModule uids) is an observation about the code under test, never a harness error: it is recorded in
+    `aux` (-> divergence of corr:core, followed by the failing-input search) and, as far as the circuit
+    can still be simulated, the property monitor runs with the abstract design as ground truth."""
+    desc = Desc(design)  # an exception here is a generator/harness problem (exit 2)
+    out = {"lean_in": [], "impl_out": [], "reject": None, "reject_msg": "", "viol": None, "viol_val": None,
+           "nvals": 0, "exhaustive": False, "names": {}, "aux": None}
+    try:
+        _eval_real(design, desc, pid, n_random, only_vals, max_patterns, out)
+    except Exception as e:  # noqa: BLE001
+        import traceback
+
+        tb = traceback.extract_tb(e.__traceback__)
+        where = f"{tb[-1].filename.split('/')[-1]}:{tb[-1].lineno}" if tb else "?"
+        out["aux"] = f"processing the real objects of this design raised {type(e).__name__}: {str(e)[:200]} ({where})"
+        out["lean_in"], out["impl_out"] = [], []
+    return out
+
+
+def _eval_real(design, desc, pid, n_random, only_vals, max_patterns, out):
     from . import extract, simcore
     from .monitors import MONITORS, mon_c11
 
-    desc = Desc(design)
     b = extract.build(design)
-    out = {
-        "lean_in": [json.dumps(b.flat, separators=(",", ":"))],
-        "impl_out": [b.summary],
-        "reject": b.reject,
-        "reject_msg": b.reject_msg,
-        "viol": None,
-        "viol_val": None,
-        "nvals": 0,
-        "exhaustive": False,
-        "names": {str(k): v for k, v in b.name_of.items()},
-    }
-    out["aux"] = _exclusivity_crosscheck(b, desc)
+    out.update({"reject": b.reject, "reject_msg": b.reject_msg, "names": {str(k): v for k, v in b.name_of.items()}})
+    consistent = not b.mismatch
+    if consistent:
+        out["lean_in"] = [json.dumps(b.flat, separators=(",", ":"))]
+        out["impl_out"] = [b.summary]
+        out["aux"] = _exclusivity_crosscheck(b, desc)
+    else:  # the model cannot be fed a design that does not correspond to the abstract one
+        out["aux"] = "extraction disagrees with the abstract design: " + "; ".join(b.mismatch[:3])
     if pid == "C11":
         v = mon_c11(desc, b.reject, design.get("inject"))
         if v:
             out["viol"] = v
     if b.reject is not None:
-        return out
+        return
     widths = {n: len(s) for n, s in b.top.inputs.items()}
     if only_vals is not None:
         vals, exh = only_vals, False
@@ -139,11 +156,13 @@ def eval_design(design: dict, pid: str, n_random: int, only_vals: Optional[list]
         # the real circuit does not settle: a combinational loop through run/ready signals.  The model
         # evaluates the same equations in one pass, so this is a divergence of corr:core (and C10's business).
         out["aux"] = f"pysim did not settle within {4 * SETTLE_TIMEOUT_S} CPU seconds: combinational loop in the generated logic?"
-        return out
+        return
     out["nvals"] = len(vals)
     out["exhaustive"] = exh
-    out["lean_in"] += [simcore.lean_line(o) for o in obs]
-    out["impl_out"] += [simcore.impl_line(b, o) for o in obs]
+    impl_lines = [simcore.impl_line(b, o) for o in obs]
+    if consistent:
+        out["lean_in"] += [simcore.lean_line(o) for o in obs]
+        out["impl_out"] += impl_lines
     out["any_run2"] = any(sum(o.run[t] for t in b.trans_ids) >= 2 for o in obs)
     out["blocked"] = any(any(o.runnable[t] and o.ready[t] and not o.run[t] for t in b.trans_ids) for o in obs)
     if pid in MONITORS:
@@ -152,8 +171,7 @@ def eval_design(design: dict, pid: str, n_random: int, only_vals: Optional[list]
         if r:
             out["viol"], k = r
             out["viol_val"] = vals[k]
-            out["viol_obs"] = out["impl_out"][k + 1]
-    return out
+            out["viol_obs"] = impl_lines[k]
 
 
 def _exclusivity_crosscheck(b, desc: Desc) -> Optional[str]:
@@ -201,6 +219,7 @@ def gen_for(pid: str, index: int, seed: int, tier: str) -> dict:
         # ordinary designs, plus (for every property) the accept families and the injected-defect stream:
         # on the unchanged tree an injected design is rejected (a cheap observation); if it unexpectedly
         # elaborates it is simulated and `pid`'s monitor decides with a concrete valuation.
+        acc9 = {"C01": ["alias_alts", "nonexcl_alts", "cross_module"], "C02": ["same_trans_excl", "cross_module"]}
         special = {"C01": ["aliasDouble", "nonexclTwice", "doubleCall"], "C02": ["sameTransMixed", "sameTransConflict"],
                    "C08": ["sameTransMixed"]}.get(pid)
         if r == 8 and pid == "C08":
@@ -208,7 +227,7 @@ def gen_for(pid: str, index: int, seed: int, tier: str) -> dict:
         elif r == 8 and special:
             d = designgen.gen_injected(rng, P, special[q % len(special)])
         elif r == 9 and special:
-            d = designgen.gen_accept_case(rng, P, ["alias_alts", "nonexcl_alts"][q % 2] if pid == "C01" else "same_trans_excl")
+            d = designgen.gen_accept_case(rng, P, acc9[pid][q % len(acc9[pid])] if pid in acc9 else "same_trans_excl")
         elif r == 10:
             d = designgen.gen_accept_case(rng, P, AK[q % len(AK)])
         elif r == 11:
@@ -296,6 +315,8 @@ class LeanStream:
         i = self.n % self.k
         self.n += 1
         self.fed[i].append(len(lines))
+        if not lines:
+            return
         try:
             self.procs[i].stdin.write("\n".join(lines) + "\n")
         except (BrokenPipeError, OSError):
@@ -507,7 +528,7 @@ def run_core(ctx: Check, pid: str, n_quick: int = 110, n_thorough: int = 1600):
         ctx.violation(
             f"{r['viol']}",
             {"design": r["design"], "valuations": [r["viol_val"]] if r.get("viol_val") is not None else None,
-             "impl_observation": r.get("viol_obs") or r["impl_out"][0], "names": r["names"]},
+             "impl_observation": r.get("viol_obs") or (r["impl_out"] or [r.get("aux")])[0], "names": r["names"]},
         )
     if fails:
         ctx.count("monitor_failures", len(fails))
@@ -528,7 +549,7 @@ def run_core(ctx: Check, pid: str, n_quick: int = 110, n_thorough: int = 1600):
         nt = _nontrivial(pid, r)
         ctx.case(json.dumps(r["design"], sort_keys=True), nontrivial=nt, n=max(1, r["nvals"]))
         _count(ctx, r)
-        if len(ctx.samples) < 3 and r["nvals"]:
+        if len(ctx.samples) < 3 and r["nvals"] and r["impl_out"]:
             ctx.sample({"design_id": r["design"].get("id"), "tag": r["design"].get("tag"), "summary": r["impl_out"][0],
                         "valuation_lines": r["lean_in"][1:4], "impl": r["impl_out"][1:4]})
         if d is None and r.get("aux"):
@@ -646,6 +667,8 @@ def replay_core(ctx: Check, pid: str, body: dict) -> Optional[str]:
     r = eval_design(design, pid, 64, only_vals=vals if vals and vals[0] is not None else None)
     if r.get("viol"):
         return r["viol"]
+    if r.get("aux"):
+        return "corr:core: " + r["aux"]
     # a replay of a pure divergence: compare with the model again
     build_models(ctx)
     out = _lean_batch_retry(ctx, r["lean_in"])
